@@ -1067,19 +1067,30 @@ func main() {
 		e.run(d, true)
 	}
 
-	// 4. explicit layouts (numeric zones only: Go's time.Parse gives an unknown zone abbreviation
-	// offset 0, so abbreviation layouts are outside what the function can honour)
+	// 4. explicit layouts.  What the function documents: the text is read by time.Parse(layout,
+	// text) - so a zone ABBREVIATION (layout element MST) denotes whatever Go's time.Parse makes of
+	// it in this process (offset 0 unless the process's Local zone knows it), independent of
+	// fromTZ/toTZ; layoutTZ alone says whether that reading carries a zone (then fromTZ is ignored)
+	// or is a bare wall-clock reading (then fromTZ, else toTZ, binds it - even if the layout had
+	// an offset in it).
 	expl := []struct {
 		layout string
-		zone   bool
+		zone   string // "", "num", "abbr"
 	}{
-		{time.RFC3339Nano, true}, {time.RFC1123Z, true}, {"2006-01-02 15:04:05 -0700", true}, {"02/01/2006 15:04:05.000 -07:00", true},
-		{"Jan _2 2006 15:04:05", false}, {"2006-01-02T15:04:05.000", false}, {"Monday, 02-Jan-2006 15:04", false}, {time.ANSIC, false},
+		{time.RFC3339Nano, "num"}, {time.RFC1123Z, "num"}, {"2006-01-02 15:04:05 -0700", "num"}, {"02/01/2006 15:04:05.000 -07:00", "num"},
+		{"Jan _2 2006 15:04:05", ""}, {"2006-01-02T15:04:05.000", ""}, {"Monday, 02-Jan-2006 15:04", ""}, {time.ANSIC, ""},
+		{"2006-01-02 15:04:05 MST", "abbr"}, {time.RFC1123, "abbr"}, {time.UnixDate, "abbr"}, {"Jan 2, 2006 at 3:04pm (MST)", "abbr"},
+		{"2006-01-02 15:04:05 -0700 MST", "abbr"}, {"02 Jan 2006 15:04 MST", "abbr"},
 	}
-	for i := 0; i < o.Count(500, 15000); i++ {
+	for i := 0; i < o.Count(800, 24000); i++ {
 		x := expl[r.Pick(len(expl))]
 		src := pickZone()
 		t, class := g.instant(e.z.locs[src])
+		if x.zone == "abbr" && r.Chance(0.5) {
+			// the modern era, where zones have letter abbreviations (EST, EDT, JST, BST, IST ...)
+			t = time.Unix(r.Int63n(2145916800), 0).UTC()
+			class = "years-1970-2038"
+		}
 		shown := t.In(e.z.locs[src])
 		if _, off := shown.Zone(); off%60 != 0 {
 			shown = t.UTC()
@@ -1087,38 +1098,44 @@ func main() {
 		if !yearOK(shown) {
 			continue
 		}
-		sum.Hist("instant:" + class)
 		text := shown.Format(x.layout)
-		rd, err := time.Parse(x.layout, text)
+		rd, err := time.Parse(x.layout, text) // the documented reading of the text
 		if err != nil {
 			continue
 		}
+		sum.Hist("instant:" + class)
+		sum.Hist("layout:zone-in-layout=" + map[string]string{"": "none", "num": "numeric", "abbr": "abbreviation"}[x.zone])
 		from, to := optZone(), optZone()
+		if x.zone != "" && r.Chance(0.4) {
+			from = src // the zone whose abbreviation / offset the text carries
+		}
 		flag := []string{"true", "false", "", "T", "0"}[r.Pick(5)]
 		d := caseDesc{Fn: "layout", Datetime: text, Layout: x.layout, LayoutTZ: flag, FromTZ: from, ToTZ: to}
 		fb, _ := strconv.ParseBool(flag)
+		_, rdOff := rd.Zone()
+		wall := rd.Unix() + int64(rdOff)
 		switch {
-		case x.zone && fb:
+		case fb:
+			// the reading carries its zone: the instant time.Parse gives, whatever fromTZ is
 			outLoc := rd.Location()
 			if to != "" {
 				outLoc = e.z.locs[to]
 			}
-			expectZoned(&d, rd.Unix(), outLoc)
-		case !x.zone && !fb && from == "" && to == "":
-			d.ExpectWall = i64(rd.Unix())
-		case !x.zone && !fb:
+			sum.Hist("layout:flag=true" + expectZoned(&d, rd.Unix(), outLoc))
+		case from == "" && to == "":
+			d.ExpectWall = i64(wall)
+			sum.Hist("layout:flag=false/no-zone-arguments")
+		default:
 			bind := from
 			if bind == "" {
 				bind = to
 			}
-			inst := dateIn(e.z.locs[bind], rd.Unix())
+			inst := dateIn(e.z.locs[bind], wall)
 			outLoc := e.z.locs[bind]
 			if to != "" {
 				outLoc = e.z.locs[to]
 			}
-			expectZoned(&d, inst, outLoc)
-		default:
-			d.Note = "layoutTZ flag contradicts the layout: model correspondence only"
+			sum.Hist("layout:flag=false/bound" + expectZoned(&d, inst, outLoc))
 		}
 		e.run(d, true)
 	}
@@ -1211,6 +1228,10 @@ func (e *env) replayFile(path string, corpus bool) {
 	}
 	if json.Unmarshal(raw, &sf) == nil && sf.Case.Fn == "schema" {
 		e.runSchema(sf.Case)
+		return
+	}
+	if sf.Case.Fn == "schema-many" {
+		e.runManyMembers(sf.Case, allZones, nil)
 		return
 	}
 	if err := json.Unmarshal(raw, &f); err != nil || f.Case.Fn == "" {
